@@ -8,7 +8,9 @@ use super::kani;
 use super::env::all_fixed;
 use super::env::at_lb;
 use super::env::protocol;
+use super::env::protocol_interrupted;
 use super::env::verif_harness;
+use super::env::verif_harness_real_trailed;
 use super::env::Change;
 use super::h_linear::Terms;
 use super::monitor;
@@ -113,7 +115,7 @@ verif_harness! {
     }
 }
 
-verif_harness! {
+verif_harness_real_trailed! {
     #[kani::unwind(4)]
     fn reified_leq_1_change() {
         // r -> x1 <= c: the smallest instance with every mechanism of the wrapper (cached
@@ -130,5 +132,36 @@ verif_harness! {
         domains(1);
         let changes = [Change::any(2), Change::any(2)];
         reified_leq(1, &changes, true);
+    }
+}
+
+verif_harness! {
+    #[kani::unwind(4)]
+    fn reified_leq_1_interrupted() {
+        // r -> x1 <= c: a change is notified (`notify` may cache an inconsistency and enqueue),
+        // the engine backtracks before the propagator runs, a second change is notified and the
+        // propagator runs: the cached inconsistency must be gone.
+        domains(1);
+        let terms = Terms::plain(1);
+        let c: i32 = kani::any();
+        monitor::pick_points(2);
+        let first = Change::any(2);
+        let second = Change::any(2);
+        let inner = move |at: fn(usize) -> i64| terms.sum(at) <= c as i64;
+        monitor::set_semantics(
+            sem_implied(1, &inner, monitor::v),
+            sem_implied(1, &inner, monitor::w),
+        );
+        let literal = Literal::new(DomainId::new(2));
+        let mut propagator =
+            ReifiedPropagator::new(LinearLessOrEqualPropagator::new(terms.ids().into(), c), literal);
+        let outcome = protocol_interrupted(&mut propagator, 2, &first, &second);
+        if outcome.ok && !outcome.pending && all_fixed(2) {
+            assert!(
+                sem_implied(1, &inner, at_lb),
+                "[O5] every variable is fixed and `r -> c` is violated, but no conflict was reported"
+            );
+        }
+        core::mem::forget(propagator);
     }
 }
